@@ -8,15 +8,24 @@ package c01
 
 import (
 	"bytes"
+	"context"
 	"encoding/base64"
+	"encoding/json"
 	"fmt"
 	"math/rand/v2"
+	"net/http"
+	"net/http/httptest"
 	"path/filepath"
 	"runtime"
 	"sync"
+	"sync/atomic"
 	"testing"
+	"time"
 
 	"github.com/tailscale/setec/db"
+	"github.com/tailscale/setec/server"
+	"github.com/tailscale/setec/types/api"
+	"tailscale.com/client/tailscale/apitype"
 
 	"verif/harness/internal/evid"
 	"verif/harness/internal/httpdrv"
@@ -292,8 +301,9 @@ func TestC01(t *testing.T) {
 		for i := 0; i < r.N(10, 150); i++ {
 			concurrentDenied(t, r, dir, i)
 		}
+		concurrentPeers(t, r, dir)
 	}
-	r.Require("concurrent_denied_calls", "cases", "allowed_calls", "denied_calls", "denied_on_existing", "denied_on_absent")
+	r.Require("concurrent_peer_replies", "concurrent_denied_calls", "cases", "allowed_calls", "denied_calls", "denied_on_existing", "denied_on_absent")
 	r.Rule("case = (database state reached by 4-13 random superuser operations over a hostile 12-name pool incl. empty, reserved, newline, literal-'*' and path-like ('a/../b', 'a//b', 'a/b/') names; 0-3 random rules over the 5 actions (+unknown ones) and 23 exact/wildcard/regexp-meta patterns); then all 9 operations x all 8 names x versions {0,1,2,9} in random order, at the DB API and through the HTTP handlers. Distinct = (level, operation, authorised?, secret exists?, model outcome class, rule count)")
 }
 
@@ -350,4 +360,133 @@ func concurrentDenied(t *testing.T, r *evid.Run, dir string, idx int) {
 		r.Violation("db-unauthorised-call-changed-state", -1, fmt.Sprintf("concurrent run %d: refused calls changed the stored state (%v)", idx, err), nil)
 	}
 	r.Distinct("concurrent-denied")
+}
+
+// concurrentPeers: peers with disjoint grants talk to the real HTTP server over loopback sockets at the same
+// time, some reading slowly. Nobody may ever receive bytes of a secret it holds no grant on, and what is
+// refused sequentially stays refused under load.
+func concurrentPeers(t *testing.T, r *evid.Run, dir string) {
+	d, err := realdb.Open(filepath.Join(dir, "peers.db"), realdb.DummyKey("c01p"))
+	if err != nil {
+		t.Fatal(err)
+	}
+	const N = 12
+	su := realdb.Super()
+	rng := r.Rand(4242)
+	vals := make([][]byte, N)
+	for i := range vals {
+		size := 60_000 + rng.IntN(200_000)
+		if i < 4 {
+			size = 3 << 20 // the slow readers fetch megabytes, so the server is still writing their reply while others are served
+		}
+		vals[i] = append(marker(rng), bytes.Repeat([]byte{byte('a' + i)}, size)...)
+		d.Put(su, fmt.Sprintf("peer%d/big", i), vals[i])
+	}
+	srv, err := httpdrv.New(d)
+	if err != nil {
+		t.Fatal(err)
+	}
+	var mu sync.Mutex
+	next := 0
+	assigned := map[string]int{}
+	srv.Override = func(ctx context.Context, addr string) (*apitype.WhoIsResponse, error) {
+		mu.Lock()
+		i, ok := assigned[addr]
+		if !ok {
+			i = next % N
+			next++
+			assigned[addr] = i
+		}
+		mu.Unlock()
+		return httpdrv.WhoResponse(httpdrv.Who{Login: fmt.Sprintf("peer%d@verif", i), Node: fmt.Sprintf("peer%d", i),
+			Rules: []refmodel.Rule{{Actions: []string{"get"}, Patterns: []string{fmt.Sprintf("peer%d/*", i)}}}}, server.ACLCap), nil
+	}
+	hs := httptest.NewServer(srv.Mux)
+	defer hs.Close()
+	// few processors: handlers of different peers then share per-processor resources (allocator caches,
+	// sync.Pool slots), which is where cross-talk between responses would come from
+	defer runtime.GOMAXPROCS(runtime.GOMAXPROCS(2))
+	var wg sync.WaitGroup
+	var bad atomic.Int32
+	var slowDone atomic.Int32
+	rounds := r.N(40, 400)
+	for c := 0; c < N; c++ {
+		wg.Add(1)
+		go func(c int) {
+			defer wg.Done()
+			tr := &http.Transport{MaxIdleConnsPerHost: 1}
+			defer tr.CloseIdleConnections()
+			hc := &http.Client{Transport: tr}
+			get := func(name string, slow bool) (int, []byte, error) {
+				body, _ := json.Marshal(api.GetRequest{Name: name})
+				req, _ := http.NewRequest("POST", hs.URL+"/api/get", bytes.NewReader(body))
+				req.Header.Set("Content-Type", "application/json")
+				req.Header.Set("Sec-X-Tailscale-No-Browsers", "setec")
+				resp, err := hc.Do(req)
+				if err != nil {
+					return 0, nil, err
+				}
+				defer resp.Body.Close()
+				var buf bytes.Buffer
+				if slow {
+					chunk := make([]byte, 64<<10)
+					for {
+						n, err := resp.Body.Read(chunk)
+						buf.Write(chunk[:n])
+						if err != nil {
+							break
+						}
+						time.Sleep(time.Millisecond)
+					}
+				} else {
+					buf.ReadFrom(resp.Body)
+				}
+				return resp.StatusCode, buf.Bytes(), nil
+			}
+			mine := -1
+			for i := 0; i < N && mine < 0; i++ {
+				if code, _, err := get(fmt.Sprintf("peer%d/big", i), false); err == nil && code == 200 {
+					mine = i
+				}
+			}
+			if mine < 0 {
+				return
+			}
+			if mine < 4 {
+				defer slowDone.Add(1)
+			}
+			myRounds := rounds * 8
+			if mine < 4 {
+				myRounds = rounds / 3
+			}
+			for k := 0; k < myRounds && slowDone.Load() < 4; k++ {
+				code, body, err := get(fmt.Sprintf("peer%d/big", mine), mine < 4)
+				if err != nil || code == 403 {
+					return // the connection (and with it the source address) was replaced
+				}
+				r.Count("concurrent_peer_replies", 1)
+				var sv api.SecretValue
+				if code != 200 || json.Unmarshal(body, &sv) != nil || !bytes.Equal(sv.Value, vals[mine]) {
+					if bad.Add(1) <= 2 {
+						whose := ""
+						for j := range vals {
+							if j != mine && bytes.Contains(body, []byte(base64.StdEncoding.EncodeToString(vals[j][:3000])[:3000])) {
+								whose = fmt.Sprintf(" and contains bytes of peer %d's secret", j)
+							}
+						}
+						r.Violation("http-reply-carries-foreign-secret", -1, fmt.Sprintf("under concurrent load the reply (status %d, %d bytes) to peer %d's get of its own secret is not that secret%s", code, len(body), mine, whose), nil)
+					}
+					continue
+				}
+				if k%8 == 0 {
+					if code, body, err := get(fmt.Sprintf("peer%d/big", (mine+1)%N), false); err == nil && (code != 403 || leaks(body, [][]byte{vals[(mine+1)%N][:16]})) && bad.Add(1) <= 2 {
+						r.Violation("http-unauthorised-call-succeeded", -1, fmt.Sprintf("under concurrent load peer %d's get of peer %d's secret answered %d", mine, (mine+1)%N, code), nil)
+					}
+				}
+			}
+		}(c)
+	}
+	wg.Wait()
+	r.Eval(1)
+	r.Distinct("concurrent peers over loopback")
 }
